@@ -29,7 +29,8 @@ RULE = (
     'being put; consumers stop early through async_dequeue_as_iterator(num_steps=k) / the sync '
     'twin dequeue_as_iterator(num_steps=k) on a bounded queue fed by practically endless async or '
     'thread producers')
-ASSUMPTIONS = C04.ASSUMPTIONS + [
+ASSUMPTIONS = [a for a in C04.ASSUMPTIONS
+               if not a.startswith(('polling variants', 'awaitable variants'))] + [
     'consumers keep consuming until they see an end or an exception; elements still queued when a failure is observed may be dropped (C05 only forbids duplicates)',
     'maybe_stop() without an exception is only issued on queues whose max_enqueuer is preset or whose producer has started (documented: an unset max_enqueuer means no enqueuer has started)',
     'starvation scenarios: a timed wait expires exactly when no thread is enabled',
